@@ -1,6 +1,7 @@
 """Extraction of the interpreter's small total maps (EMX, DESIGN §4.4) and the lexer table (E2).
 
 All maps are *extracted* from the facts of the current tree; nothing here is a frozen copy."""
+import re
 from mirlib import *
 from synlib import *
 
@@ -407,11 +408,95 @@ def lexer_table(ctx):
     return _memo(ctx, 'lexer_table', build)
 
 
+def iter_chain(e):
+    """method chain of an expression: base, [(method, args), ...]"""
+    chain = []
+    while isinstance(e, dict) and e.get('k') == 'mcall':
+        chain.append((e['method'], e['args']))
+        e = e['recv']
+    chain.reverse()
+    return e, chain
+
+
+def _keyword_table_from_const(S, f):
+    """the keyword table kept as data: a const array of (word, token) pairs searched for the pair whose word equals the text
+    (`TABLE.iter().find(|(w, _)| *w == value).map_or(Identifier(value), |&(_, t)| t)`), possibly behind a test on the length of
+    the text that returns the default early - a word whose length the test excludes is not a keyword any more"""
+    params = [i['pat']['name'] for i in f['inputs'] if not i.get('self') and i['pat'].get('k') == 'p_ident']
+    if len(params) != 1:
+        return None
+    val = params[0]
+    finds = find_all(f['body'], lambda n: n.get('k') == 'mcall' and n['method'] == 'find')
+    if len(finds) != 1:
+        return None
+    base, ch = iter_chain(finds[0])
+    if [m for m, _ in ch][:2] != ['iter', 'find'] or base.get('k') != 'path' or len(base['path']) != 1:
+        return None
+    cname = base['path'][0]
+    const = next((it for it in S.all_items('src/lexer.rs') if it['k'] == 'const' and it['name'] == cname), None)
+    if const is None or const['expr'].get('k') != 'array':
+        return None
+    clo = finds[0]['args'][0] if finds[0]['args'] else None
+    if not clo or clo.get('k') != 'closure':
+        return None
+    body = render(clo['body']).replace(' ', '').replace('(', '').replace(')', '')
+    cpar = [p_ for p_ in find_all(clo, lambda n: n.get('k') == 'p_ident')]
+    wname = cpar[0]['name'] if cpar else None
+    if wname is None or body not in ('*%s==%s' % (wname, val), '%s==*%s' % (val, wname), '%s==%s' % (wname, val), '%s==%s' % (val, wname)):
+        return None
+    kw = {}
+    for e in const['expr']['elems']:
+        if e.get('k') != 'tuple' or len(e['elems']) != 2 or e['elems'][0].get('k') != 'lit' or e['elems'][0].get('lit') != 'str':
+            return None
+        w = e['elems'][0]['value']
+        if w in kw:
+            continue            # find() answers with the first pair
+        kw[w] = _token_name(e['elems'][1]) or render(e['elems'][1])
+    # what becomes of the match: map_or(default, |&(_, t)| t)
+    mo = find_all(f['body'], lambda n: n.get('k') == 'mcall' and n['method'] in ('map_or', 'map_or_else') and find_all(n['recv'], lambda x: x is finds[0]))
+    if len(mo) != 1 or len(mo[0]['args']) != 2:
+        return None
+    default = render(mo[0]['args'][0])
+    # early exits on the length of the text
+    for st in f['body']['stmts']:
+        e = st.get('expr') if st['k'] == 's_expr' else None
+        if e is None or e is mo[0] or find_all(e, lambda x: x is mo[0]):
+            continue
+        ok = False
+        if e.get('k') == 'if' and not e.get('else'):
+            c = e['cond']
+            neg = False
+            while c.get('k') == 'unary' and c['op'] == '!':
+                c, neg = c['expr'], not neg
+            while c.get('k') == 'paren':
+                c = c['expr']
+            rg = c.get('recv') if c.get('k') == 'mcall' and c.get('method') == 'contains' and len(c.get('args') or []) == 1 else None
+            while rg is not None and rg.get('k') == 'paren':
+                rg = rg['expr']
+            arg = render(c['args'][0]).replace(' ', '') if rg is not None else ''
+            rets = [x for x in e['then']['stmts']]
+            rexp = rets[0].get('expr') if len(rets) == 1 else None
+            if rexp is not None and rexp.get('k') == 'return':
+                rexp = rexp.get('expr')
+            if rg is not None and rg.get('k') == 'range' and rg.get('start') and rg.get('end') and isinstance(rg['start'].get('value'), int) and isinstance(rg['end'].get('value'), int) \
+                    and arg in ('&%s.len()' % val, '&(%s.len())' % val) and neg and rexp is not None and render(rexp).replace(' ', '') == default.replace(' ', ''):
+                lo, hi = rg['start']['value'], rg['end']['value'] - (0 if rg.get('inclusive') else 1)
+                kw = {w: t for w, t in kw.items() if lo <= len(w.encode('utf-8')) <= hi}
+                ok = True
+        if not ok:
+            return None
+    return {'keywords': kw, 'default': default, 'line': f['line'], 'scrutinee': val}
+
+
 def keyword_table(ctx):
     def build():
         S = ctx.syn()
         f = S.method('src/lexer.rs', 'Token', 'from', trait='From')
         ms = find_all(f['body'], lambda n: n.get('k') == 'match')
+        if len(ms) == 0:
+            alt = _keyword_table_from_const(S, f)
+            if alt is not None:
+                return alt
         if len(ms) != 1:
             raise CheckerError('keyword table: expected one match in From<&str> for Token')
         kw = {}
